@@ -11,6 +11,7 @@
 #include <tlx/sort/parallel_mergesort.hpp>
 
 #include <algorithm>
+#include <deque>
 
 namespace {
 
@@ -18,14 +19,17 @@ using sim::Workload;
 using sim::Result;
 using sim::Rng;
 
-enum { C_STABLE = 0, C_THREADS, C_MWMSA, C_OVERSAMPLE, C_ELEM, C_DEFAULT_THREADS, C_ORDER };
+enum { C_STABLE = 0, C_THREADS, C_MWMSA, C_OVERSAMPLE, C_ELEM, C_DEFAULT_THREADS, C_ORDER, C_RANGE };
 
 struct Pod { int key; int idx; };
+// adversarial operator<: the opposite of "less by key" (the sort must use the comparator it was given)
+inline bool operator<(const Pod& a, const Pod& b) { return a.key > b.key; }
 
 void generate(Rng& r, Workload& w, int tier) {
     int64_t threads = r.chance(1, 8) ? r.range(6, 8) : r.range(0, 5);   // 0..5 -> 1..6 threads, 6 -> 16, 7 -> 24, 8 -> 32
     w.cfg = {int64_t(r.below(2)), threads, int64_t(r.below(2)), r.range(0, 3), int64_t(r.below(2)),
-             r.chance(1, 8) ? 1 : 0, int64_t(r.below(2))};
+             r.chance(1, 8) ? 1 : 0, int64_t(r.below(2)),
+             r.chance(2, 3) ? 0 : r.range(1, 2)};   // range kind: 0 vector, 1 deque, 2 reverse iterators
     int nmax = tier ? 96 : 64;
     int n;
     uint64_t k = r.below(10);
@@ -70,13 +74,33 @@ void run(const Workload& w, Result& res) {
         const int64_t live1 = sim::tracked_live();
 
         auto cmp = [greater](const T& a, const T& b) { return greater ? keyof(a) > keyof(b) : keyof(a) < keyof(b); };
-        if (default_threads) {
-            if (stable) tlx::stable_parallel_mergesort(v.begin(), v.end(), cmp);
-            else tlx::parallel_mergesort(v.begin(), v.end(), cmp);
+        // "every input range": a vector, a deque (not contiguous) or reverse iterators (backwards in memory)
+        const int range_kind = int(sim::modn(sim::cfg_at(w, C_RANGE), 3));
+        auto do_sort = [&](auto first, auto last) {
+            if (default_threads) {
+                if (stable) tlx::stable_parallel_mergesort(first, last, cmp);
+                else tlx::parallel_mergesort(first, last, cmp);
+            } else {
+                if (stable) tlx::stable_parallel_mergesort(first, last, cmp, threads, mw);
+                else tlx::parallel_mergesort(first, last, cmp, threads, mw);
+            }
+        };
+        int64_t extra_live = 0;
+        if (range_kind == 1) {
+            std::deque<T> dq(v.begin(), v.end());
+            do_sort(dq.begin(), dq.end());
+            std::copy(dq.begin(), dq.end(), v.begin());
+            res.probe("range_deque");
+        } else if (range_kind == 2) {
+            // sorting the reversed view: reverse the data first so that the view shows the original order
+            std::reverse(v.begin(), v.end());
+            do_sort(v.rbegin(), v.rend());
+            std::reverse(v.begin(), v.end());
+            res.probe("range_reverse_iterators");
         } else {
-            if (stable) tlx::stable_parallel_mergesort(v.begin(), v.end(), cmp, threads, mw);
-            else tlx::parallel_mergesort(v.begin(), v.end(), cmp, threads, mw);
+            do_sort(v.begin(), v.end());
         }
+        (void)extra_live;
         const int64_t live2 = sim::tracked_live();
 
         std::vector<std::pair<int, int> > out;
